@@ -275,6 +275,9 @@ func (e *Eng) refOrigin(st *State, ref string) {
 	for _, a := range st.allocs {
 		alts = append(alts, "(= "+ref+" "+a+")")
 	}
+	for _, a := range st.known {
+		alts = append(alts, "(= "+ref+" "+a+")")
+	}
 	if len(alts) == 1 {
 		e.assumeOnce(st, alts[0])
 	} else {
